@@ -5,7 +5,7 @@
 (* / C08; PubSub.tla decides) with two additions:                            *)
 (*  - a copy-send (iox2_publisher_send_copy / Publisher::send_copy) is the   *)
 (*    loan/send pair it consists of; the chunk of that loan is not           *)
-(*    observable (c = -1) and left to TLC (any chunk without a holder);      *)
+(*    observable (c = -1) and modelled as a virtual chunk of its own;        *)
 (*  - handle release: every record of a port creation / drop carries the     *)
 (*    number of publishers (np) and subscribers (ns) the dynamic config      *)
 (*    lists afterwards (read through the Rust API by an observer); it must   *)
@@ -36,10 +36,10 @@ Clean(e) == e.bad = <<>>
 Registry(e) == /\ e.np = Cardinality({p \in PubIds : pst'[p] = "live"})
                /\ e.ns = Cardinality({s \in SubIds : sst'[s] \in {"live", "abandoned"}})
 
-LoanAny(e) ==
-    IF e.c >= 0 THEN Loan(e.p, e.c)
-    ELSE IF pn[e.p] = 0 THEN Loan(e.p, 0)
-    ELSE \E c \in 0 .. (pn[e.p] - 1) : Loan(e.p, c)
+\* the chunk of a copy-sent sample is not observable: it is modelled as a virtual chunk of its own (index beyond
+\* every real one), so that no later observed chunk index can collide with a guess - chunk identity is the
+\* subject of C02, here only the number of chunks in use matters
+LoanAny(e) == IF e.c >= 0 THEN Loan(e.p, e.c) ELSE Loan(e.p, 1000 + nextid)
 
 Op(e) ==
     CASE e.a = "create_pub"  -> CreatePublisher(e.p, e.n) /\ out'.r = e.r /\ Registry(e)
